@@ -146,8 +146,8 @@ impl Property for C19 {
     }
     fn cases(&self, tier: Tier) -> u64 {
         match tier {
-            Tier::Quick => 60_000,
-            Tier::Thorough => 600_000,
+            Tier::Quick => 120_000,
+            Tier::Thorough => 1_200_000,
         }
     }
     fn required_labels(&self, _tier: Tier) -> Vec<&'static str> {
